@@ -216,16 +216,11 @@ func c14One(r *rng, id int) c14Case {
 				time.Sleep(3 * time.Millisecond)
 			}
 		case opGet:
-			// pick an object that was not marked as garbage: stays readable
-			var got bool
-			for _, o := range objs {
-				if _, gerr := sh.Get(o.Address(), false); gerr == nil {
-					got = true
-					break
-				}
-			}
-			if !got {
-				err = errors.New("no stored object readable")
+			// the read works if it hands out the object or answers with its status
+			// (objects marked as garbage before the mode switch are "already removed")
+			_, gerr := sh.Get(target, false)
+			if gerr != nil && !errors.Is(gerr, apistatus.ErrObjectAlreadyRemoved) && !errors.Is(gerr, apistatus.ErrObjectNotFound) {
+				err = gerr
 			}
 		case opExists:
 			_, err = sh.Exists(target, true)
